@@ -264,8 +264,10 @@ class WebSocket(object):
             return
         if self.is_closing:
             yield events.Closed(message.code, message.reason)
-            self.state.closing = False
+            # closed before not-closing: a send on another thread must
+            # never see a websocket that is neither closing nor closed
             self.state.closed = True
+            self.state.closing = False
         else:
             yield events.Closing(message.code, message.reason)
             self.close(message.code, message.reason)
